@@ -26,21 +26,47 @@ class _Raise(Exception):
 
 
 class ShapeEval:
-    def __init__(self, functions):
-        """functions: name -> FunctionDef (e.g. {'Shape._unify': <ast>, 'unsigned': ..})"""
+    def __init__(self, functions, lookup=None, self_class=None):
+        """functions: name -> FunctionDef (e.g. {'Shape._unify': <ast>, 'unsigned': ..}); lookup(qualname) -> FunctionDef
+        or None resolves further callees on demand; self_class names the class `self.<method>` calls bind to"""
         self.functions = functions
+        self.lookup = lookup
+        self.self_class = self_class
         self.steps = 0
+
+    def resolve(self, name):
+        if name in self.functions:
+            return self.functions[name]
+        cands = [name]
+        if name.startswith(("self.", "cls.")) and self.self_class:
+            cands.append(self.self_class + "." + name.split(".", 1)[1])
+        for c in cands:
+            if c in self.functions:
+                return self.functions[c]
+            if self.lookup is not None:
+                f = self.lookup(c)
+                if f is not None:
+                    self.functions[c] = f
+                    return f
+        return None
 
     def call(self, fn, args, selfobj=None, preset=None):
         env = dict(preset or {})
         if preset:
             env["__frozen__"] = set(preset)
         params = [a.arg for a in fn.args.args]
-        if params and params[0] in ("self", "cls"):
+        static = any(dotted(d) == "staticmethod" for d in fn.decorator_list)
+        if params and params[0] in ("self", "cls") and not static:
             env[params[0]] = selfobj
             params = params[1:]
+        if fn.args.vararg is not None:
+            env[fn.args.vararg.arg] = list(args[len(params):])
         for p, a in zip(params, args):
             env[p] = a
+        defaults = fn.args.defaults
+        for p, d in zip(params[len(params) - len(defaults):], defaults):
+            if p not in env:
+                env[p] = self.ev(d, env)
         try:
             self.block(fn.body, env)
         except _Return as r:
@@ -68,9 +94,7 @@ class ShapeEval:
                     self.assign(t, v, env)
                 continue
             if isinstance(s, ast.If):
-                c = self.ev(s.test, env)
-                if not isinstance(c, (bool, int)):
-                    raise AnalysisError(f"shape evaluator: non-concrete condition {unparse(s.test)}")
+                c = self.truth(self.ev(s.test, env), s.test)
                 self.block(s.body if c else s.orelse, env)
                 continue
             if isinstance(s, ast.For):
@@ -82,6 +106,15 @@ class ShapeEval:
                     self.block(s.body, env)
                 continue
             raise AnalysisError(f"shape evaluator: unsupported statement {type(s).__name__} at line {getattr(s, 'lineno', '?')}")
+
+    def truth(self, c, node):
+        if isinstance(c, (list, tuple)) and not (isinstance(c, tuple) and c and c[0] == "name"):
+            return len(c) > 0
+        if c is None:
+            return False
+        if isinstance(c, (bool, int)):
+            return bool(c)
+        raise AnalysisError(f"shape evaluator: non-concrete condition {unparse(node)}")
 
     def assign(self, t, v, env):
         if isinstance(t, ast.Name):
@@ -130,20 +163,27 @@ class ShapeEval:
                 return l in r
             if isinstance(op, ast.NotIn):
                 return l not in r
+            if isinstance(op, ast.Is):
+                return l is r
+            if isinstance(op, ast.IsNot):
+                return l is not r
             raise AnalysisError(f"shape evaluator: unsupported comparison {unparse(e)}")
         if isinstance(e, ast.BoolOp):
-            vals = [self.ev(v, env) for v in e.values]
-            if isinstance(e.op, ast.Or):
-                out = False
-                for v in vals:
-                    out = out or v
-                return out
-            out = True
-            for v in vals:
-                out = out and v
+            out = None
+            for v in e.values:
+                out = self.ev(v, env)
+                t = self.truth(out, v)
+                if isinstance(e.op, ast.Or) and t:
+                    return out
+                if isinstance(e.op, ast.And) and not t:
+                    return out
             return out
         if isinstance(e, ast.UnaryOp) and isinstance(e.op, ast.Not):
-            return not self.ev(e.operand, env)
+            return not self.truth(self.ev(e.operand, env), e.operand)
+        if isinstance(e, ast.Lambda):
+            return ("lambda", e, dict(env))
+        if isinstance(e, ast.IfExp):
+            return self.ev(e.body if self.truth(self.ev(e.test, env), e.test) else e.orelse, env)
         if isinstance(e, ast.BinOp):
             l, r = self.ev(e.left, env), self.ev(e.right, env)
             if isinstance(e.op, ast.Add):
@@ -167,8 +207,26 @@ class ShapeEval:
             raise AnalysisError(f"shape evaluator: unsupported arithmetic {unparse(e)}")
         if isinstance(e, ast.Call):
             fn = dotted(e.func)
-            args = [self.ev(a, env) for a in e.args]
+            args = []
+            for a in e.args:
+                if isinstance(a, ast.Starred):
+                    v = self.ev(a.value, env)
+                    if not isinstance(v, (list, tuple)):
+                        raise AnalysisError(f"shape evaluator: cannot splat {unparse(a)}")
+                    args.extend(v)
+                else:
+                    args.append(self.ev(a, env))
             kw = {k.arg: self.ev(k.value, env) for k in e.keywords}
+            # value.shape() on an operand whose shape is known
+            if isinstance(e.func, ast.Attribute) and e.func.attr == "shape" and not args:
+                base = self.ev(e.func.value, env)
+                if isinstance(base, ShapeV):
+                    return base
+            if isinstance(e.func, ast.Name) and isinstance(env.get(e.func.id), tuple) and env[e.func.id][:1] == ("lambda",):
+                lam, cenv = env[e.func.id][1], dict(env[e.func.id][2])
+                for p_, a_ in zip([a.arg for a in lam.args.args], args):
+                    cenv[p_] = a_
+                return self.ev(lam.body, cenv)
             if fn == "Shape":
                 w = args[0] if args else kw.get("width", 1)
                 s = args[1] if len(args) > 1 else kw.get("signed", False)
@@ -177,8 +235,27 @@ class ShapeEval:
                 return ShapeV(args[0], False)
             if fn == "signed":
                 return ShapeV(args[0], True)
+            if fn == "map" and len(args) == 2 and isinstance(args[0], tuple) and args[0][0] == "lambda":
+                lam, cenv = args[0][1], args[0][2]
+                out = []
+                for x in args[1]:
+                    c2 = dict(cenv)
+                    c2[lam.args.args[0].arg] = x
+                    out.append(self.ev(lam.body, c2))
+                return out
+            if fn in ("all", "any") and len(args) == 1 and isinstance(args[0], list):
+                vals = [self.truth(x, e) for x in args[0]]
+                return all(vals) if fn == "all" else any(vals)
+            if fn == "sum" and len(args) == 1 and isinstance(args[0], list):
+                out = MP.const(0)
+                for x in args[0]:
+                    out = self._add(out, x)
+                return out
             if fn == "max":
                 xs = args[0] if len(args) == 1 and isinstance(args[0], list) else args
+                if not xs and "default" in kw:
+                    d = kw["default"]
+                    return d if isinstance(d, MP) else MP.const(int(d))
                 out = None
                 for x in xs:
                     x = x if isinstance(x, MP) else MP.const(int(x))
@@ -190,17 +267,21 @@ class ShapeEval:
                 return True
             if fn in ("list", "tuple") and args and isinstance(args[0], list):
                 return list(args[0])
-            if fn in self.functions:
-                return self.call(self.functions[fn], args)
+            callee = self.resolve(fn) if fn else None
+            if callee is not None:
+                return self.call(callee, args, selfobj=env.get("self"))
             raise AnalysisError(f"shape evaluator: unknown call {unparse(e)}")
         if isinstance(e, ast.GeneratorExp) or isinstance(e, ast.ListComp):
             g = e.generators[0]
             it = self.ev(g.iter, env)
+            if not isinstance(it, (list, tuple)):
+                raise AnalysisError(f"shape evaluator: cannot iterate {unparse(g.iter)}")
             out = []
             for x in it:
                 env2 = dict(env)
                 self.assign(g.target, x, env2)
-                out.append(self.ev(e.elt, env2))
+                if all(self.truth(self.ev(c, env2), c) for c in g.ifs):
+                    out.append(self.ev(e.elt, env2))
             return out
         raise AnalysisError(f"shape evaluator: unsupported expression {unparse(e)}")
 
